@@ -178,8 +178,14 @@ namespace pika::detail {
             // request (with the lock released again) or have lost its last source
             if (stop_requested(old_state))
             {
+#if defined(PIKA_VERIF)
+                PIKA_VERIF_POINT(1412, this);
+#endif
                 cb->execute();
 
+#if defined(PIKA_VERIF)
+                PIKA_VERIF_POINT(1410, this);
+#endif
                 cb->callback_finished_executing_.store(true, std::memory_order_release);
 
                 return false;
